@@ -186,41 +186,66 @@ pub fn drive(tier: Tier) -> i32 {
                 Ok(o) => inconclusive.push(format!("the ThreadSanitizer build failed: {}", String::from_utf8_lossy(&o.stderr).lines().last().unwrap_or(""))),
                 Err(e) => inconclusive.push(format!("cannot run cargo +nightly: {e}")),
             }
-            // (3b) Miri: data-race and UB detection over the schedules its seeds produce
+            // (3b) Miri: data-race and UB detection over the schedules its seeds produce. One process per seed, all at once (the
+            // many-seeds mode of one process is an order of magnitude slower here and interleaves the reports of its seeds)
             let miri_dir = target_base().join("miri");
-            let mut c = cargo(Some("+nightly"));
-            c.args(["miri", "run", "--offline", "--quiet", "-p", "c18mt"]);
-            extra_config(&mut c);
-            c.args(["--", "8", "3", &seed.to_string()]);
-            c.env("MIRIFLAGS", "-Zmiri-many-seeds=0..16").env("CARGO_TARGET_DIR", &miri_dir);
-            match c.output() {
-                Ok(o) => {
-                    let out = String::from_utf8_lossy(&o.stdout).to_string();
-                    let err = String::from_utf8_lossy(&o.stderr).to_string();
-                    let seeds_done = out.lines().filter(|l| l.starts_with("C18MT ")).count() as u64;
-                    extras.insert("miri_seeds_completed".into(), json!(seeds_done));
-                    *m.counters.entry("miri_seeds".into()).or_insert(0) += seeds_done;
-                    if err.contains("Undefined Behavior") || err.contains("Data race detected") {
-                        let first = err.lines().find(|l| l.contains("Undefined Behavior") || l.contains("Data race")).unwrap_or("").to_string();
-                        let sig = format!("C18 miri {}", first.chars().take(120).collect::<String>());
-                        m.violations.insert(sig.clone(), Violation { sig, what: "Miri reported undefined behaviour / a data race in the concurrent evaluation workload".into(), case: json!({"report": err.chars().take(4000).collect::<String>()}), count: 1 });
-                    } else if !o.status.success() || seeds_done < 16 {
-                        let mism = out.lines().filter_map(|l| l.strip_prefix("C18MT ")).filter_map(|j| serde_json::from_str::<J>(j).ok()).any(|j| j["mismatches"].as_u64().unwrap_or(0) > 0);
-                        if mism {
-                            let sig = "C18 concurrent-outcome-differs (under Miri)".to_string();
-                            m.violations.insert(sig.clone(), Violation { sig, what: "outcomes under Miri's schedules differ from the sequential baseline".into(), case: json!({"stdout": out.chars().take(3000).collect::<String>()}), count: 1 });
-                        } else {
-                            inconclusive.push(format!("Miri run did not complete all seeds ({seeds_done}/16): {}", err.lines().last().unwrap_or("")));
-                        }
-                    }
-                    for l in out.lines().filter_map(|l| l.strip_prefix("C18MT ")) {
-                        if let Ok(j) = serde_json::from_str::<J>(l) {
-                            m.evaluations += j["evaluations"].as_u64().unwrap_or(0);
-                        }
-                    }
-                }
+            // the first invocation builds the Miri sysroot and the crate (its own run is a 4-evaluation smoke test)
+            let mut first = cargo(Some("+nightly"));
+            first.args(["miri", "run", "--offline", "--quiet", "-p", "c18mt"]);
+            extra_config(&mut first);
+            first.args(["--", "2", "2", "1"]);
+            first.env("MIRIFLAGS", "-Zmiri-seed=99").env("CARGO_TARGET_DIR", &miri_dir);
+            match first.output() {
+                Ok(o) if String::from_utf8_lossy(&o.stdout).contains("C18MT {") => {}
+                Ok(o) => inconclusive.push(format!("the Miri build / smoke run failed: {}", String::from_utf8_lossy(&o.stderr).lines().last().unwrap_or(""))),
                 Err(e) => inconclusive.push(format!("cannot run cargo miri: {e}")),
             }
+            let outs: Vec<Option<std::process::Output>> = std::thread::scope(|sc| {
+                let hs: Vec<_> = (0..16u64)
+                    .map(|k| {
+                        let miri_dir = miri_dir.clone();
+                        sc.spawn(move || {
+                            let mut c = cargo(Some("+nightly"));
+                            c.args(["miri", "run", "--offline", "--quiet", "-p", "c18mt"]);
+                            extra_config(&mut c);
+                            let extra: Vec<String> = if k % 4 == 3 { vec!["6".into(), "2".into(), (seed + k).to_string(), "nojitter".into(), "churn".into()] } else { vec!["8".into(), "3".into(), (seed + k).to_string()] };
+                            c.arg("--").args(extra);
+                            c.env("MIRIFLAGS", format!("-Zmiri-seed={k}")).env("CARGO_TARGET_DIR", &miri_dir);
+                            c.output().ok()
+                        })
+                    })
+                    .collect();
+                hs.into_iter().map(|h| h.join().unwrap_or(None)).collect()
+            });
+            let mut seeds_done = 0u64;
+            for (k, o) in outs.into_iter().enumerate() {
+                let Some(o) = o else {
+                    inconclusive.push(format!("cannot run cargo miri (seed {k})"));
+                    continue;
+                };
+                let out = String::from_utf8_lossy(&o.stdout).to_string();
+                let err = String::from_utf8_lossy(&o.stderr).to_string();
+                if err.contains("Undefined Behavior") || err.contains("Data race detected") {
+                    let first = err.lines().find(|l| l.contains("Undefined Behavior") || l.contains("Data race")).unwrap_or("").to_string();
+                    let sig = format!("C18 miri {}", first.chars().take(120).collect::<String>());
+                    m.violations.insert(sig.clone(), Violation { sig, what: "Miri reported undefined behaviour / a data race in the concurrent evaluation workload".into(), case: json!({"miri_seed": k, "report": err.chars().take(4000).collect::<String>()}), count: 1 });
+                    continue;
+                }
+                let summary = out.lines().filter_map(|l| l.strip_prefix("C18MT ")).filter_map(|j| serde_json::from_str::<J>(j).ok()).next();
+                match summary {
+                    Some(j) => {
+                        seeds_done += 1;
+                        m.evaluations += j["evaluations"].as_u64().unwrap_or(0);
+                        if j["mismatches"].as_u64().unwrap_or(0) > 0 {
+                            let sig = "C18 concurrent-outcome-differs (under Miri)".to_string();
+                            m.violations.insert(sig.clone(), Violation { sig, what: "outcomes under Miri's schedules differ from the sequential baseline".into(), case: json!({"miri_seed": k, "first_mismatches": j["first_mismatches"]}), count: 1 });
+                        }
+                    }
+                    None => inconclusive.push(format!("Miri seed {k} did not complete: {}", err.lines().last().unwrap_or(""))),
+                }
+            }
+            extras.insert("miri_seeds_completed".into(), json!(seeds_done));
+            *m.counters.entry("miri_seeds".into()).or_insert(0) += seeds_done;
         }
     }
     m.samples.insert("runs".into(), runs.iter().take(5).cloned().collect());
